@@ -104,6 +104,7 @@ type Chan struct {
 	sendSeq uint64
 	recvSeq uint64
 	auto    bool
+	tm      *Timer // channel of a timer
 	reply   bool // cap-1 channel used as a one-shot reply slot (discipline checked at run time)
 	nsend   int
 	nrecv   int
@@ -200,6 +201,14 @@ type TimerPolicy int
 const (
 	TimersIdle    TimerPolicy = iota // time passes only when nothing else can happen
 	TimersAnytime                    // a due timer may fire between any two steps
+	// TimersLazy explores the same behaviours as TimersAnytime with fewer
+	// interleavings: a fire of a channel timer commutes with every transition
+	// that neither touches a timer nor reads the clock, so it is only offered
+	// when some goroutine is pending at an operation that depends on it (a
+	// select on an armed timer's channel, NewTimer/Stop/Reset/Now), when an
+	// AfterFunc timer is armed (its fire starts a goroutine whose steps may race
+	// with anything), or when nothing else is enabled.
+	TimersLazy
 )
 
 // Config of one execution.
@@ -414,7 +423,7 @@ func (s *Sched) loop() {
 			if s.cfg.Trace {
 				s.res.Trace = append(s.res.Trace, fmt.Sprintf("%4d [eager] %s", s.steps, t.String()))
 			}
-			s.apply(t)
+			s.applyChecked(t)
 			s.steps++
 			s.esteps++
 			if s.steps >= s.cfg.MaxSteps {
@@ -438,7 +447,7 @@ func (s *Sched) loop() {
 		if s.cfg.Trace {
 			s.res.Trace = append(s.res.Trace, fmt.Sprintf("%4d [%d/%d] %s", s.steps, i, len(en), en[i].String()))
 		}
-		s.apply(en[i])
+		s.applyChecked(en[i])
 		s.steps++
 		if s.steps >= s.cfg.MaxSteps {
 			s.res.StepLimit = true
@@ -593,7 +602,7 @@ func (s *Sched) enabled() []Trans {
 	}
 	// timers
 	nonTimer := len(en)
-	if s.cfg.Timers == TimersAnytime || nonTimer == 0 {
+	if s.cfg.Timers == TimersAnytime || nonTimer == 0 || (s.cfg.Timers == TimersLazy && s.timerDependentPending()) {
 		var earliest int64 = -1
 		for _, tm := range s.timers {
 			if tm.active && (earliest < 0 || tm.deadline < earliest) {
@@ -656,6 +665,42 @@ func (s *Sched) replyBreach(ch *Chan, what string) {
 	}
 }
 
+// timerDependentPending: is some goroutine pending at an operation whose
+// outcome depends on whether a timer fires first?
+func (s *Sched) timerDependentPending() bool {
+	anyActive := false
+	for _, tm := range s.timers {
+		if tm.active {
+			anyActive = true
+			if tm.fn != nil {
+				return true
+			}
+		}
+	}
+	if !anyActive {
+		return false
+	}
+	for _, g := range s.gs {
+		o := g.pend
+		if g.done || o == nil {
+			continue
+		}
+		switch o.kind {
+		case opLocal:
+			if o.tag >= 0x7001 && o.tag <= 0x7004 {
+				return true
+			}
+		case opSelect:
+			for ci := range o.cases {
+				if ch := o.cases[ci].ch; ch != nil && ch.tm != nil && ch.tm.active {
+					return true
+				}
+			}
+		}
+	}
+	return false
+}
+
 func (s *Sched) resume(g *G) {
 	s.runq = append(s.runq, g)
 	s.last = g
@@ -666,6 +711,19 @@ func (s *Sched) bump(g *G, vals ...uint64) {
 	g.chain = Mix(g.chain, vals...)
 	g.nops++
 	s.fp = H{s.fp.A - old.A + g.chain.A, s.fp.B - old.B + g.chain.B}
+}
+
+func (s *Sched) applyChecked(t Trans) {
+	if !checkPeek {
+		s.apply(t)
+		return
+	}
+	want, _ := s.PeekKey(t)
+	desc := t.String()
+	s.apply(t)
+	if got := s.Fingerprint(); got != want {
+		EngineError("PeekKey disagrees with apply for transition %s", desc)
+	}
 }
 
 func (s *Sched) apply(t Trans) {
@@ -767,6 +825,101 @@ func (s *Sched) apply(t Trans) {
 		s.fire(t.Tm)
 	}
 }
+
+// PeekKey returns the fingerprint the global state will have right after
+// transition t has been applied (before the resumed goroutines run their local
+// code, which is a deterministic function of that state), and the goroutine
+// that will count as "last".  It mutates nothing.  The label formulas mirror
+// apply(); VS_CHECK_PEEK=1 asserts the agreement on every step.
+func (s *Sched) PeekKey(t Trans) (H, *G) {
+	fp := s.fp
+	sub := func(g *G, n H) {
+		fp = H{fp.A - g.chain.A + n.A, fp.B - g.chain.B + n.B}
+	}
+	clock := s.clock
+	var tmMod *Timer
+	var tmHash H
+	last := t.G
+	switch t.Kind {
+	case tCase:
+		g := t.G
+		c := &g.pend.cases[t.Ci]
+		ch := c.ch
+		if c.dir == dirSend {
+			if ch.closed {
+				sub(g, Mix(g.chain, 0x11, uint64(t.Ci)))
+			} else {
+				sub(g, Mix(g.chain, 0x12, uint64(t.Ci), ch.hid.A, ch.hid.B, ch.sendSeq+1))
+			}
+		} else if len(ch.buf) > 0 {
+			sl := ch.buf[0]
+			sub(g, Mix(g.chain, 0x13, uint64(t.Ci), ch.hid.A, ch.hid.B, ch.recvSeq+1, sl.src.A, sl.src.B))
+		} else {
+			sub(g, Mix(g.chain, 0x14, uint64(t.Ci), ch.hid.A, ch.hid.B, ch.closeH.A, ch.closeH.B))
+		}
+	case tRendezvous:
+		sg, rg := t.G, t.G2
+		ch := sg.pend.cases[t.Ci].ch
+		sc, rc := sg.chain, rg.chain
+		sub(sg, Mix(sc, 0x15, uint64(t.Ci), ch.hid.A, ch.hid.B, rc.A, rc.B))
+		sub(rg, Mix(rc, 0x16, uint64(t.Cj), ch.hid.A, ch.hid.B, sc.A, sc.B))
+		last = rg
+	case tDefault:
+		g := t.G
+		vals := []uint64{0x17}
+		for ci := range g.pend.cases {
+			if ch := g.pend.cases[ci].ch; ch != nil {
+				vals = append(vals, ch.hid.A, ch.sendSeq, ch.recvSeq)
+			}
+		}
+		sub(g, Mix(g.chain, vals...))
+	case tClose:
+		g := t.G
+		ch := g.pend.ch
+		switch {
+		case ch == nil:
+			sub(g, Mix(g.chain, 0x18))
+		case ch.closed:
+			sub(g, Mix(g.chain, 0x19, ch.hid.A, ch.hid.B))
+		default:
+			sub(g, Mix(g.chain, 0x1a, ch.hid.A, ch.hid.B, ch.sendSeq))
+		}
+	case tChoose:
+		sub(t.G, Mix(t.G.chain, 0x1b, uint64(t.Ci)))
+	case tLocal:
+		sub(t.G, Mix(t.G.chain, 0x1c, t.G.pend.tag))
+	case tTimer:
+		tm := t.Tm
+		if tm.deadline > clock {
+			clock = tm.deadline
+		}
+		h2 := Mix(tm.h, 0x72, uint64(tm.fires+1), uint64(clock))
+		tmMod = tm
+		tmHash = Mix(tm.hid, h2.A, h2.B, 0)
+		if tm.fn != nil {
+			fp = fp.add(Mix(tm.hid, 0x73, uint64(tm.fires+1), h2.A))
+		}
+		last = s.last
+	}
+	h := Mix(fp, uint64(clock))
+	var ts H
+	for _, tm := range s.timers {
+		if tm == tmMod {
+			ts = ts.add(tmHash)
+		} else {
+			ts = ts.add(tm.stateHash())
+		}
+	}
+	h = MixH(h, ts)
+	var o H
+	for _, ob := range s.objs {
+		o = o.add(Mix(ob.hid, ob.h.A, ob.h.B))
+	}
+	h = MixH(h, o)
+	return h, last
+}
+
+var checkPeek = os.Getenv("VS_CHECK_PEEK") != ""
 
 // Fingerprint identifies the global state reached by the executed prefix: it
 // is a function of the partial order of events only (see DESIGN.md 2.3a).
